@@ -55,7 +55,8 @@ Record cfg := {
   c_abor : abor_kind;
   c_task_exc : list (string * list string);    (* try around task.result() *)
   c_outer_exc : list (string * list string);   (* around the dispatcher loop *)
-  c_fin : list fstmt
+  c_fin : list fstmt;
+  c_giveback : bool                            (* _start_passive_server returns the port when it is cancelled *)
 }.
 
 Definition c_w (F : cfg) (k : wkind) : wfacts :=
@@ -169,7 +170,8 @@ Definition abor_of (s : string) : abor_kind :=
   else AbUnknown.
 
 Definition cfg_of_gen (d : dispatcher_facts) (ws : list worker)
-           (wexc : list (string * list string)) (abor : string) : cfg :=
+           (wexc : list (string * list string)) (abor : string)
+           (take_before_await : bool) (giveback : list string) : cfg :=
   {| c_retr := wfacts_named "retr_worker" ws; c_stor := wfacts_named "stor_worker" ws;
      c_list := wfacts_named "list_worker" ws; c_mlsd := wfacts_named "mlsd_worker" ws;
      c_cancel_codes := match assoc_s "asyncio.CancelledError" wexc with
@@ -178,7 +180,11 @@ Definition cfg_of_gen (d : dispatcher_facts) (ws : list worker)
                        end;
      c_abor := abor_of abor;
      c_task_exc := d_task_except d; c_outer_exc := d_outer_except d;
-     c_fin := map fstmt_of (d_finally d) |}.
+     c_fin := map fstmt_of (d_finally d);
+     c_giveback := orb (negb take_before_await)
+                       (existsb (fun c => orb (String.eqb c "BaseException")
+                                              (orb (String.eqb c "asyncio.CancelledError") (String.eqb c "CancelledError")))
+                                giveback) |}.
 
 (* ------------------------------------------------------------------ workers *)
 Inductive stage :=
@@ -452,9 +458,20 @@ Definition run_fin (fin : list fstmt) (s0 : sess) : fin_acc :=
 
 Definition map_cancel (F : cfg) (l : list wrk) : list wrk := map (fun w => fst (cancel F w)) l.
 
+(* when the source returns the port on cancellation, a listener start-up that is interrupted before the bind
+   leaves nothing behind; after the bind the port is returned and only the bound listener stays *)
+Definition giveback_pre (F : cfg) (s : sess) : sess :=
+  if c_giveback F then
+    match lst s with
+    | LTaking => set_lst s LNone
+    | LBound => upd_sess s (alive s) (ctrl s) (table s) (slot s) (user s) LNone (data s) (aux s) (port_lost s) true (leaked s)
+    | _ => s
+    end
+  else s.
+
 (* the dispatcher leaves its loop: the finally block, then (cancelled) tasks unwind on their own *)
 Definition end_session (F : cfg) (st : state) : state :=
-  let '(s, c, _) := run_fin (c_fin F) (ss st) in
+  let '(s, c, _) := run_fin (c_fin F) (giveback_pre F (ss st)) in
   {| ss := upd_sess s false (ctrl s) (table s) (slot s) (user s) (lst s) (data s) (aux s)
                     (port_lost s) (orphan s) (leaked s);
      ws := if c then map_cancel F (ws st) else ws st |}.
